@@ -524,6 +524,7 @@ func histMain(args mon.Args) {
 		one(g, []string{"ipfix", "nf9"}[(i/len(ap))%2], &p, false)
 	})
 	peerClientPhase(run, snap)
+	concurrentLookups(run)
 	crossProcessHistories(run, snap, "hist:xproc", run.Pick(60, 1500))
 	// canary
 	{
@@ -547,7 +548,7 @@ func histMain(args mon.Args) {
 			run.HarnessError("canary: comparator accepted a corrupted expectation")
 		}
 	}
-	run.SetRule("seeded histories of 5-200 messages over 2-50 exporters (4-byte, IPv4-mapped, IPv6) and a pool of 2-5 template ids: announcements, re-announcements with a different definition, data, announce+data and data/redefinition/data inside one message; a reference map (address octets, id) → latest definition, updated in history order, gives the expected records and the expected 'unknown template' reports of every message; IPFIX peer lookups (IRPC.Get directly and through a real net/rpc server on loopback) must return exactly the reference entry or 'not available'; a peer-client phase runs the real ipfix.RPCServer (port 8085) and fetches hundreds of templates through ONE ipfix.RPCClient, keeping each answer as the RPC loop does: every kept answer must stay equal to its own key's entry. 60-1500 further histories are cut at 1-3 points and every part runs in a process of its own that loads the cache file its predecessor saved (real restarts: per-process state such as a random hash seed differs between the lives). Adversarial histories use key pairs with equal FNV-1-32 of address‖id (found by birthday search: same id on two exporters, different ids, IPv4/IPv6/mapped forms) and 20 structurally aliasing pairs (decimal concatenation without separator, addresses differing in one part only or with permuted octets, ids equal modulo 256 / xor 0x8000 / byte-swapped). distinct = (protocol, colliding, sizes, first datagram); non-trivial = at least one record expected")
+	run.SetRule("seeded histories of 5-200 messages over 2-50 exporters (4-byte, IPv4-mapped, IPv6) and a pool of 2-5 template ids: announcements, re-announcements with a different definition, data, announce+data and data/redefinition/data inside one message; a reference map (address octets, id) → latest definition, updated in history order, gives the expected records and the expected 'unknown template' reports of every message; IPFIX peer lookups (IRPC.Get directly and through a real net/rpc server on loopback) must return exactly the reference entry or 'not available'; a peer-client phase runs the real ipfix.RPCServer (port 8085) and fetches hundreds of templates through ONE ipfix.RPCClient, keeping each answer as the RPC loop does: every kept answer must stay equal to its own key's entry. 60-1500 further histories are cut at 1-3 points and every part runs in a process of its own that loads the cache file its predecessor saved (real restarts: per-process state such as a random hash seed differs between the lives). A concurrent phase lets 16 goroutines look up 64 announced keys (8 in one shard) 40 000 times without any announcement: every lookup must see its own key's definition. Adversarial histories use key pairs with equal FNV-1-32 of address‖id (found by birthday search: same id on two exporters, different ids, IPv4/IPv6/mapped forms) and 20 structurally aliasing pairs (decimal concatenation without separator, addresses differing in one part only or with permuted octets, ids equal modulo 256 / xor 0x8000 / byte-swapped). distinct = (protocol, colliding, sizes, first datagram); non-trivial = at least one record expected")
 	run.Assume("the RPC() loop itself (multicast discovery) cannot run in this sandbox (no interface with flags == 19); IRPC.Get, RPCServer and RPCClient.Get are exercised")
 	run.Set("sub_claims_not_reached", []string{"peer-fetch client loop (ipfix.RPC): needs multicast discovery"})
 	run.Finish()
@@ -763,4 +764,76 @@ func crossProcessHistories(run *mon.Run, snap []wire.Elem, sigPrefix string, n i
 	run.Set("histories_across_process_restarts", n)
 	run.Set("collector_lives_run_in_their_own_process", parts)
 	run.Set("restarts_with_the_cache_file_carried_over", restarts)
+}
+
+// concurrentLookups: several workers decode at once. Keys that share a cache shard (eight chosen by the
+// harness-side FNV, plus 56 others) each get their own definition; then 16 goroutines only LOOK UP -
+// decode data sets and, for IPFIX, ask IRPC.Get - for 40 000 operations without any further
+// announcement. Every lookup must see its own key's definition: another exporter's template, or
+// "unknown", for a key that was announced and never changed is a C04 violation whatever the schedule.
+func concurrentLookups(run *mon.Run) {
+	for _, proto := range []string{"ipfix", "nf9"} {
+		api := newCacheAPI(proto, "")
+		var keys []concKey
+		for i := 0; len(keys) < 8 && i < 100000; i++ {
+			k := concKey{Addr: fullCap([]byte{10, 7, byte(i >> 8), byte(i)}), ID: uint16(256 + i%5)}
+			if fnvKey(k.Addr, k.ID)%32 == 5 {
+				keys = append(keys, k)
+			}
+		}
+		for i := 0; i < 56; i++ {
+			ad := make([]byte, 16)
+			ad[0], ad[1], ad[14], ad[15] = 0x20, 0x01, byte(i), byte(i*7)
+			k := concKey{Addr: fullCap([]byte{172, 20, byte(i), byte(200 - i)}), ID: uint16(300 + i%9)}
+			if i%3 == 0 {
+				k.Addr = fullCap(ad)
+			}
+			keys = append(keys, k)
+		}
+		for i, k := range keys {
+			api.write(k, 10+i)
+		}
+		var bad []string
+		var bmu sync.Mutex
+		var wg sync.WaitGroup
+		var ops int64
+		for gi := 0; gi < 16; gi++ {
+			wg.Add(1)
+			go func(gi int) {
+				defer wg.Done()
+				g := mon.NewRNG(run.Seed, "conclookup-"+proto, gi)
+				for n := 0; n < 2500; n++ {
+					ki := g.Intn(len(keys))
+					if g.Chance(1, 2) {
+						ki = g.Intn(8) // the same-shard group
+					}
+					var v int
+					var note, how string
+					if proto == "ipfix" && g.Chance(1, 4) {
+						v, note = api.get(keys[ki])
+						how = "IRPC.Get"
+					} else {
+						v, note = api.read(keys[ki])
+						how = "decoding a data set"
+					}
+					atomic.AddInt64(&ops, 1)
+					if v != 10+ki {
+						bmu.Lock()
+						if len(bad) < 10 {
+							bad = append(bad, fmt.Sprintf("%s for (%x, %d) observed definition v%d %s; this exporter announced v%d once and nobody announced anything since", how, keys[ki].Addr, keys[ki].ID, v, note, 10+ki))
+						}
+						bmu.Unlock()
+					}
+				}
+			}(gi)
+		}
+		wg.Wait()
+		run.Eval(1)
+		run.Distinct("concurrent-lookups|" + proto)
+		run.Add("concurrent_lookups_without_announcements", ops)
+		if len(bad) > 0 {
+			run.Violation("hist:"+proto+":concurrent-lookup-wrong-template", fmt.Sprintf("16 goroutines looking up 64 announced keys (8 of them in one shard): %s (%d such observations shown of the first 10)", bad[0], len(bad)),
+				map[string]interface{}{"engine": "cachecheck/hist", "phase": "concurrent-lookups", "proto": proto, "observations": bad})
+		}
+	}
 }
